@@ -101,11 +101,11 @@ def gen_request(rng, w, max_body=300, force_version=None):
             w.add(b":")
             w.add(rng.choice([b" ", b"", b"  "]))
             fold = rng.random() < 0.08
-            w.add(rand_value(rng) or (b"y" if fold else b""))   # (an empty first line of a folded field is C06's F31)
+            w.add(rand_value(rng))
             if fold:                                 # obs-fold
                 w.eol(rng)
                 w.add(rng.choice([b" ", b"\t", b"  "]), hot=True)
-                w.add(rand_value(rng) or b"z")
+                w.add(rand_value(rng))
             w.add(rng.choice([b"", b"", b" "]))
         elif kind == "cl":
             w.add(rng.choice([b"Content-Length", b"content-length", b"CONTENT-LENGTH"]), hot=True)
